@@ -144,3 +144,11 @@ def t_valuation_liab(world):
 _t_val = tasks
 def tasks(tier):
     return _t_val(tier) + [('valuation_asset', t_valuation_asset), ('valuation_liab', t_valuation_liab)]
+
+
+
+# ---------------------------------------------------------------- shared with C08.b: the Anchor constraint sets of this property's instructions (signer role, has_one = group, vault / PDA bindings)
+_t_shared_structs = tasks
+def tasks(tier):
+    from specs.C08 import shared_struct_tasks
+    return _t_shared_structs(tier) + shared_struct_tasks('C05.e.', ['LendingAccountLiquidate'])
